@@ -110,6 +110,7 @@ func checkC15(c *Ctx) {
 	suitesOK := c15Suites(c)
 	versionOK := c15Version(c, scope)
 	c15FinishedHash(c)
+	c15Phase(c)
 	c15Panics(c, scope, completeOK, suitesOK, versionOK)
 	_ = token.NoPos
 }
